@@ -476,7 +476,7 @@ static Parser::Exit _p3_u4(Parser* p, byte bb) {
       p->u = u;
       p->context = c->category;
     } else {
-      p->u = (p->b[0] << 24) | (p->b[1] << 16) | (p->b[2] << 8) | bb;
+      p->u = (static_cast<codepoint>(p->b[0]) << 24) | (p->b[1] << 16) | (p->b[2] << 8) | bb;
       p->context = None;
     }
     p->u_size = _u_size(p->u);
